@@ -200,6 +200,7 @@ type twinResult struct {
 	twinPanic          string
 	commitErr          string   // Commit of the original fails, Commit of the twin succeeds
 	bothCommitErr      string   // both fail: not attributable to the reverted region
+	view               []string // Exist after the root computation / accessors of the reopened root: original vs twin
 	codeMissing        []string // accounts whose committed code hash has no (matching) blob in the original but has in the twin
 }
 
@@ -249,6 +250,64 @@ func codeOf(rn *runner, root common.Hash) (missing []string, codes map[string]st
 		}
 	}
 	return
+}
+
+// existAfterRoot: Exist() of every observed account on the live AccountDB right after the
+// root computation (Finalise marks deleted objects).
+func existAfterRoot(rn *runner) map[string]string {
+	out := map[string]string{}
+	for i, a := range obsAddr {
+		a := a
+		v := "<panic>"
+		func() {
+			defer func() { recover() }()
+			v = fmt.Sprint(rn.adb.Exist(a))
+		}()
+		out["Exist("+obsName[i]+") after the root computation"] = v
+	}
+	return out
+}
+
+// reopenedView: existence, nonce and every observed storage slot, read through the accessors
+// of a fresh AccountDB opened on the committed root (the execution's own database).
+func reopenedView(rn *runner, root common.Hash) map[string]string {
+	out := map[string]string{}
+	adb, err := account.NewAccountDB(root, rn.db)
+	if err != nil {
+		out["reopen"] = err.Error()
+		return out
+	}
+	for i, a := range obsAddr {
+		ex := adb.Exist(a)
+		out["Exist("+obsName[i]+") after reopening the committed root"] = fmt.Sprint(ex)
+		if !ex {
+			continue
+		}
+		out["GetNonce("+obsName[i]+") after reopening"] = fmt.Sprint(adb.GetNonce(a))
+		names, keys := observedKeys(i)
+		for j, k := range keys {
+			if v := adb.GetData(a, k); len(v) > 0 {
+				out["GetData("+obsName[i]+","+names[j]+") after reopening"] = hx(v)
+			}
+		}
+	}
+	return out
+}
+
+func viewDiff(o, t map[string]string) []string {
+	var out []string
+	for k, v := range t {
+		if o[k] != v {
+			out = append(out, fmt.Sprintf("%s: original %q, twin %q", k, o[k], v))
+		}
+	}
+	for k, v := range o {
+		if _, ok := t[k]; !ok {
+			out = append(out, fmt.Sprintf("%s: original %q, twin %q", k, v, ""))
+		}
+	}
+	sort.Strings(out)
+	return out
 }
 
 // regionBounds returns the indices of Snapshot(label) and of the Revert(label) that
@@ -325,6 +384,11 @@ func twinCheck(d account.AccountDatabase, h, th []Op, fm finalMode) *twinResult 
 			res.diffs = diffStates(so, st)
 		}
 	}
+	// clause "existence / storage reads after the root computation and after reopening":
+	// always recorded for the witness; a finding of its own only when the roots agree (when
+	// they differ the leaf diff above already names the account, under the twin-root classes)
+	res.view = viewDiff(existAfterRoot(o), existAfterRoot(t))
+	res.view = append(res.view, viewDiff(reopenedView(o, res.crO), reopenedView(t, res.crT))...)
 	// clause "the state reopened from the committed root has the code": every code hash in
 	// the original's committed state must come with its blob, as it does in the twin's
 	missO, codesO, e1 := codeOf(o, res.crO)
@@ -661,7 +725,7 @@ func describe(h []Op) []string {
 				s += fmt.Sprintf(",k%d", o.S%len(dataKeys))
 			case "SetState", "GetState", "GetCommittedState":
 				s += fmt.Sprintf(",k%d", 3+o.S%3)
-			case "AddFT", "SubFT", "SetFT", "GetFT", "TouchFT":
+			case "AddFT", "SubFT", "SetFT", "GetFT", "TouchFT", "SubFT0":
 				s += "," + ftNames[o.S%2]
 			case "Transfer":
 				s += "," + accName(uAddr[o.B%nUniverse])
@@ -681,8 +745,10 @@ func describe(h []Op) []string {
 				s += "," + amts[o.V%len(amts)].String()
 			case "AddFT":
 				s += "," + amts[1+o.V%(len(amts)-1)].String()
-			case "TouchFT":
+			case "TouchFT", "AddBalance0", "SubBalance0", "SubFT0":
 				s += ",0"
+			case "Transfer0":
+				s += "," + accName(uAddr[o.B%nUniverse]) + ",0"
 			case "SetTransientState":
 				s += "," + tVals[o.V%len(tVals)].Hex()
 			}
